@@ -208,6 +208,14 @@ func (e *Environment) ReleaseRegister(register Register) {
 	e.numReg--
 }
 
+// cacheSafe tells if reading the outer binding name (of value obj, in env) leaves the reader memoizable:
+// only for what can't vary between two calls with the same arguments, i.e. a constant or a function of the
+// top level environment. The same names captured in an enclosing call (C => x => x + C, h => x => h(x))
+// differ from one closure to the next while the closures share their text, hence their cache key.
+func cacheSafe(name string, obj Object, env *Environment) bool {
+	return env.depth == 0 && (Constant(name) || (obj != nil && obj.Type() == FUNC))
+}
+
 func (e *Environment) makeRef(name string) (*Reference, bool) {
 	orig := e
 	for e.outer != nil {
@@ -222,7 +230,7 @@ func (e *Environment) makeRef(name string) (*Reference, bool) {
 			ref = r // set and return the original ref instead of ref of ref.
 		}
 		orig.store[name] = ref
-		if !Constant(name) && obj.Type() != FUNC {
+		if !cacheSafe(ref.Name, ref.ObjValue(), ref.RefEnv) {
 			orig.getMiss++ // creating a ref to a non constant is a miss.
 			log.Debugf("makeRef(%s) GETMISS %d", name, orig.getMiss)
 		}
@@ -248,7 +256,7 @@ func (e *Environment) Get(name string) (Object, bool) {
 	obj, ok := e.store[name]
 	if ok {
 		// using references to non constant (extensions are constants) implies uncacheable.
-		if r, ok := obj.(Reference); ok && !Constant(r.Name) && r.ObjValue().Type() != FUNC {
+		if r, ok := obj.(Reference); ok && !cacheSafe(r.Name, r.ObjValue(), r.RefEnv) {
 			e.getMiss++
 			log.Debugf("get(%s) GETMISS %d", name, e.getMiss)
 		}
